@@ -364,3 +364,29 @@ Proof.
   pose proof Htree as Ht'.
   rewrite total_flops_post_sub. apply zsum_perm_l, Permutation_map. symmetry. apply (ssa_tree_nodes (NN n) path t Ht').
 Qed.
+
+(* ---------- simplify_single_terms gives the tree's leaf legs, for ANY input term ---------- *)
+Theorem simplified_is_leaf_legs (n : net) (rho : ix -> nat) (ap : list nat) (k : nat) (l : plegs) :
+  k < NN n -> nd_from 0 l -> pos l ->
+  (forall j, In j (lkeys l) -> exists e, In e (universe n) /\ j = rho e) ->
+  (forall e, In e (universe n) -> papp_of ap (rho e) = appear n e) ->
+  (forall e, In e (universe n) -> pcount (rho e) l = occ (nth k (inputs n) []) e) ->
+  LR n rho (leaf_legs n [] k) (compute_simplified ap l).
+Proof.
+  intros Hk Hnd Hp Himg Happ Hcnt.
+  destruct (compute_simplified_spec ap l Hnd Hp) as (S & P & K & G). cbn zeta in *.
+  assert (Hin : forall j, 0 < pcount j l -> In j (lkeys l)).
+  { clear. induction l as [|[k c] l IH]; cbn; intros j H; [lia|].
+    destruct (Nat.eqb_spec k j) as [->|]; [left; reflexivity|right; apply IH; lia]. }
+  constructor.
+  - exact S.
+  - exact P.
+  - intros j Hj. apply Himg, Hin, K, Hj.
+  - intros e He. rewrite G, (Happ e He), (Hcnt e He), (leaf_legs_get n [] k e Hk).
+    unfold spec_count. cbn [cnt]. rewrite term_sl_nil, Nat.add_0_r.
+    assert (Hle : cnt n [] [k] e <= appear n e).
+    { apply cnt_le_appear. split; [repeat constructor; cbn; tauto|intros ? [<-|[]]; exact Hk]. }
+    cbn [cnt] in Hle. rewrite term_sl_nil, Nat.add_0_r in Hle.
+    destruct (Nat.eqb_spec (occ (nth k (inputs n) []) e) (appear n e));
+      destruct (Nat.ltb_spec (occ (nth k (inputs n) []) e) (appear n e)); lia.
+Qed.
